@@ -152,8 +152,26 @@ def contract_view(prop, task):
     import check as _check
     from gen import Quant
     from expr import E, INT, free_vars, Printer
-    h = _check.build_harness(prop, task, _check.all_contracts())
-    spec = h.gen.last_spec
+    # translation + one evaluation of the contract (no harness text is generated: only the clauses are read)
+    from tr import Translator
+    from gen import Generator, Spec
+    contracts = _check.all_contracts()
+    opts = dict(task.options)
+    opts['contracts'] = contracts
+    t = Translator(opts)
+    t.pins = dict(task.pins)
+    this = task.setup(t, None, task) if task.setup is not None else None
+    fn = t.translate_method(task.cls, task.cfg, task.method, task.nparams, ctor=task.ctor, pred=task.pred, this=this)
+    contract = contracts.get(task.contract_key or fn.key).select(fn.node, len(cxxast.params_of(fn.node)))
+    g = Generator(fn, contract, contracts, prop, task.label, task.gen_options)
+    g.known_terms = []
+    spec = Spec(g, fn.ns, fn.cfg, 'call_view', '')
+    contract.spec(spec)
+
+    class _H(object):
+        pass
+    h = _H()
+    h.gen = g
     P = Printer('real')
     sk = [E.var('sk%d' % j, INT) for j in range(3)]
     rows = []
@@ -238,3 +256,26 @@ def optimizer_replay(prop, result, workdir, seed):
     if key not in _SPLINE_REPLAY_CACHE:
         _SPLINE_REPLAY_CACHE[key] = replay_native('replay_opt', [prop, max(1, int(seed))], workdir, timeout=900)
     return _SPLINE_REPLAY_CACHE[key]
+
+
+def precondition_chain(prop, cls, method, nparams, D=2, d=0, pins=None, allow=()):
+    go = {'focus': d} if d is not None else {}
+    """every requires clause of a gradient function is, text for text, a postcondition of update() for the same configuration (so the
+    'built spline' it assumes is what C01/C02 prove update() establishes); clauses about the function's own parameters are exempt"""
+    rows_u, _, _ = contract_view(prop, Task(cls, 'update', 4, {'DIM': D}, label='meta', gen_options=go))
+    have = {txt for kind, label, txt, fv in rows_u if kind == 'ensures'}
+    rows_f, _, _ = contract_view(prop, Task(cls, method, nparams, {'DIM': D}, label='meta', gen_options=go, pins=pins or {}))
+    missing = []
+    n = 0
+    for kind, label, txt, fv in rows_f:
+        if kind != 'requires' or label.startswith('def_') or label in allow:
+            continue
+        names = {x.lstrip('@') for x in fv}
+        if any(x.startswith('p_') for x in names):
+            continue          # about the caller's arguments
+        n += 1
+        if txt not in have:
+            missing.append(label)
+    oid = '%s/%s.%s/precondition_established_by_update' % (prop, cls, method)
+    return [{'oid': oid, 'status': 'violation' if missing else ('ok' if n else 'undecided'),
+             'detail': ('requires clauses that are not postconditions of update(): %s' % missing[:8]) if missing else '%d clauses, each a postcondition of update()' % n}]
